@@ -117,6 +117,8 @@ def post(pid, mode, ev, queries, results, ctx):
 
 
 def replay(pid, mode, q, viol, inputs, ctx):
+    if 'program' not in q:
+        return None, 'no native replay defined for this query'
     exe = native_build(pid, mode, ctx)
     name = q['name'][2:]
     v = inputs[0] if inputs else 0
